@@ -34,6 +34,17 @@ def stream_semantics(ctx):
                 continue
             if len(nexts) == 1 and len(conts) == 1:
                 n, c = nexts[0], conts[0]
+                # locals whose value is handed on unchanged to the return place (an inlined helper's own return slot)
+                ret_locals = {0}
+                grew = True
+                while grew:
+                    grew = False
+                    for loc_, st_ in b.all_assigns():
+                        rv_ = st_["rv"]
+                        if st_["place"]["local"] in ret_locals and not st_["place"]["proj"] and rv_["k"] == "use" and rv_["op"]["k"] in ("copy", "move") \
+                                and not rv_["op"]["place"]["proj"] and rv_["op"]["place"]["local"] not in ret_locals:
+                            ret_locals.add(rv_["op"]["place"]["local"])
+                            grew = True
                 op = c.arg_path(0)
                 if op is None or op.root != 1 or len(op.fields()) != 1:
                     why[adt] = "contains() receiver is not a field of self"
@@ -53,6 +64,16 @@ def stream_semantics(ctx):
                     if d is not None and d[1] == "assign" and d[2]["rv"]["k"] == "unop" and d[2]["rv"]["op"] == "Not":
                         d = b.source_def(d[2]["rv"]["a"])
                         neg = True
+                    if d is not None and d[1] == "assign" and d[2]["rv"]["k"] == "binop" and d[2]["rv"]["op"] in ("Eq", "Ne"):
+                        # `contains(x) == wanted` with `wanted` a constant (a shared helper's flag bound at the call site)
+                        rvb = d[2]["rv"]
+                        for x_, y_ in ((rvb["a"], rvb["b"]), (rvb["b"], rvb["a"])):
+                            cv = b.op_const(y_)
+                            if cv in (0, 1):
+                                if (rvb["op"] == "Eq") != bool(cv):
+                                    neg = not neg
+                                d = b.source_def(x_)
+                                break
                     if d is None or d[1] != "call" or d[0] != c.loc:
                         continue
                     zero = [tb for v, tb in t["targets"] if v == 0]
@@ -68,7 +89,7 @@ def stream_semantics(ctx):
                         some = False
                         for x in reach:
                             for st_ in b.stmts(x):
-                                if st_["k"] == "assign" and st_["place"]["local"] == 0 and st_["rv"]["k"] == "aggregate" and st_["rv"].get("variant") == "Some":
+                                if st_["k"] == "assign" and st_["place"]["local"] in ret_locals and st_["rv"]["k"] == "aggregate" and st_["rv"].get("variant") == "Some":
                                     ss, _ = b.slice_back(Loc(x, 0), st_["rv"]["ops"])
                                     if n.loc in ss or True:
                                         some = True
